@@ -130,11 +130,11 @@ where
     let mut lines = CrlfLines { slice: buf };
 
     // first line
-    match lines.next_line() {
+    match lines.next_terminated_line() {
         None => return Err((body, pat)),
         Some(&[]) => {
             // first boundary
-            match lines.next_line() {
+            match lines.next_terminated_line() {
                 None => return Err((body, pat)),
                 Some(line) => {
                     if line != pat_without_crlf {
@@ -396,6 +396,19 @@ impl<'a> CrlfLines<'a> {
         } else {
             Some(mem::take(&mut self.slice))
         }
+    }
+
+    /// poll next line terminated by CRLF
+    ///
+    /// A trailing line without CRLF may be continued by the next frame, so it is not consumed.
+    fn next_terminated_line(&mut self) -> Option<&'a [u8]> {
+        let prev = self.slice;
+        let line = self.next_line()?;
+        if self.slice.is_empty() && !prev.ends_with(b"\r\n") {
+            self.slice = prev;
+            return None;
+        }
+        Some(line)
     }
 
     /// split by pattern and return previous bytes
